@@ -55,6 +55,19 @@ func diffStates(ws *core.Workspace, rnd *rand.Rand, nBroken int) []State {
 				continue
 			}
 			nt := NumTokens(src)
+			if nBroken > 0 {
+				// a prefix that ends right behind an opening bracket: unterminated calls /
+				// collections are where parser recovery produces its oddest ranges
+				var opens []int
+				for i := 0; i < len(src); i++ {
+					if src[i] == '(' || src[i] == '[' || src[i] == '{' {
+						opens = append(opens, i+1)
+					}
+				}
+				if len(opens) > 0 {
+					out = append(out, State{path, f, Mutation{Kind: "prefix", A: opens[rnd.Intn(len(opens))]}})
+				}
+			}
 			for i := 0; i < nBroken; i++ {
 				switch i % 3 {
 				case 0:
@@ -136,6 +149,9 @@ func queryList(env *core.Env, st State, rnd *rand.Rand, nCursors int, editAt int
 			}
 		}
 	}
+	// the very first and the very last position of the file
+	add(all[0])
+	add(all[len(all)-1])
 	// stratified: a few cursors inside each kind of written element (uniform
 	// offsets alone rarely land on the short ones, e.g. top-level labels)
 	if pc := env.PathCtx[st.Path]; pc != nil && pc.Files[st.File] != nil {
